@@ -36,6 +36,11 @@ const (
 	allowedExtCSVGZ = ".csv.gz"
 )
 
+// isPlainFileName reports whether name denotes a file directly inside the lookups directory.
+func isPlainFileName(name string) bool {
+	return name != "" && name != "." && name != ".." && name == filepath.Base(name) && !strings.ContainsAny(name, "/\\\x00")
+}
+
 func UploadLookupFile(ctx *fasthttp.RequestCtx) {
 	fileName := string(ctx.FormValue("name"))
 	if fileName == "" {
@@ -69,6 +74,12 @@ func UploadLookupFile(ctx *fasthttp.RequestCtx) {
 		} else {
 			fileName += allowedExtCSV
 		}
+	}
+
+	if !isPlainFileName(fileName) {
+		log.Errorf("UploadLookupFile: Invalid file name: %q", fileName)
+		ctx.Error("Invalid file name", fasthttp.StatusBadRequest)
+		return
 	}
 
 	fullLookupsDir := config.GetLookupPath()
@@ -167,6 +178,10 @@ func GetAllLookupFiles(ctx *fasthttp.RequestCtx) {
 
 func GetLookupFile(ctx *fasthttp.RequestCtx) {
 	lookupFilename := utils.ExtractParamAsString(ctx.UserValue("lookupFilename"))
+	if !isPlainFileName(lookupFilename) {
+		ctx.Error("Invalid file name", fasthttp.StatusBadRequest)
+		return
+	}
 
 	lookupsDir := config.GetLookupPath()
 	filePath := filepath.Join(lookupsDir, lookupFilename)
@@ -195,6 +210,10 @@ func GetLookupFile(ctx *fasthttp.RequestCtx) {
 
 func DeleteLookupFile(ctx *fasthttp.RequestCtx) {
 	lookupFilename := utils.ExtractParamAsString(ctx.UserValue("lookupFilename"))
+	if !isPlainFileName(lookupFilename) {
+		ctx.Error("Invalid file name", fasthttp.StatusBadRequest)
+		return
+	}
 
 	lookupsDir := config.GetLookupPath()
 	filePath := filepath.Join(lookupsDir, lookupFilename)
